@@ -12,7 +12,7 @@ func ZvC03_S2_History() {
 	kind := vrt.Choice(2)
 	comp := zvS2Comp(kind)
 	h := NewHeap(comp)
-	L := vrt.Pick(4, 6)
+	L := vrt.Pick(4, 5)
 	steps := vrt.Choice(L) + 1
 	q := vrt.Int() // probe value: cnt tracks how many q the model holds
 	cnt := 0
